@@ -765,7 +765,8 @@ def _eval_relation(ex, st, src, cenv, senv, spec_ms):
 
 def verify_contract(contract, registry, combo_filter=None, timeout_ms=10000, rounds=3, seg_filter=None, shard=None):
     """Generate and discharge every obligation of one function. Returns a result dict."""
-    smt.SLOW[0] = 12 if timeout_ms <= 10000 else 60     # inconclusive queries a task may spend (quick / thorough)
+    smt.SLOW[0] = 2 if timeout_ms <= 10000 else 12      # inconclusive standalone queries a task may spend (quick / thorough)
+    smt.FALLBACK_LEFT[0] = 2 if timeout_ms <= 10000 else 6   # counter-model searches a task may spend
     smt.HARD_HITS = 0
     smt.INC_OPEN[0] = 0
     if isinstance(contract, Lemma):
@@ -987,6 +988,16 @@ def verify_contract(contract, registry, combo_filter=None, timeout_ms=10000, rou
             res["merges"] += getattr(ex, "nmerges", 0)
             res["assumed_contracts"] = sorted(set(res.get("assumed_contracts", [])) | ex.assumed_contracts)
             # obligations left open by the incremental solver: standalone prover
+            # open obligations that can yield a replayable input (result / exception / emission / safety)
+            # get the task's budget first
+            prio = {"post": 0, "raises": 0, "emit": 0, "safety": 1, "pre": 1, "requires": 1, "inv-step": 2, "inv-entry": 2, "inv-exit": 2}
+            for ob in sorted((o for o in ex.obligations if o.result is None), key=lambda o: prio.get(o.kind, 3)):
+                if os.environ.get("PYVC_TRACE"):
+                    print("FALLBACK", ob.name, ob.where, str(ob.info)[:600], flush=True)
+                try:
+                    ob.result = smt.prove(ob.snapshot, ob.goal, timeout_ms=timeout_ms, rounds=rounds)
+                except z3.Z3Exception as e:
+                    ob.result = smt.Result("unknown", reason=str(e))
             for ob in ex.obligations:
                 if ob.result is None:
                     if os.environ.get("PYVC_TRACE"):
